@@ -1698,6 +1698,9 @@ class Executor:
         return Tup(items)
 
     def ev_List(self, n):
+        if not n.elts and getattr(self.c, 'empty_list', None) is not None and not getattr(self, '_in_spec', 0):
+            # `[]` in the code under contract: the contract's model of a list of symbolic length
+            return self.c.empty_list(self)
         items = [self.ev(e) for e in n.elts]
         return Tup(items, 'list')
 
@@ -1825,6 +1828,10 @@ class Executor:
             return a.methods['__add__'](self, a, b)
         if isinstance(b, Obj) and '__radd__' in b.methods and isinstance(op, ast.Add):
             return b.methods['__radd__'](self, b, a)
+        if isinstance(a, Tup) and a.kind == 'list' and len(a.items) == 1 and isinstance(op, ast.Mult) and \
+                concrete(b) is None and getattr(self.c, 'list_repeat', None) is not None:
+            # [x] * n with a symbolic n: the contract's model of a list of symbolic length
+            return self.c.list_repeat(self, a.items[0], b)
         if isinstance(a, Obj) and isinstance(op, ast.LShift) and '__lshift__' in a.methods:
             return a.methods['__lshift__'](self, a, b)
         if isinstance(a, SeqV) or isinstance(b, SeqV):
